@@ -17,6 +17,7 @@ import os
 import re
 import shutil
 import threading
+import time
 from vlib.common import *
 from vlib import lsp
 
@@ -122,8 +123,13 @@ def run_harness(res, fnd, hbin, args, out, tag, timeout):
             fnd.report(describe(v), v)
         elif k == "summary":
             summary = v
+        elif k == "case":
+            res.add_sample({"stream": tag, "case": v}, limit=5)
         elif k == "arena":
             arena.append(v)
+        elif k == "harness_panic":
+            res.violation("harness c03 (%s) panicked in its own code on case %s: %s" % (tag, v.get("id"), v.get("detail")),
+                          {"kind": "harness", "detail": v.get("detail")}, no_failing_input=True)
     if rc == 124:
         res.violation("harness c03 (%s) exceeded its time budget of %d s" % (tag, timeout),
                       {"kind": "harness", "log": log[-2000:]}, no_failing_input=True)
@@ -159,6 +165,7 @@ def arena_script(trace):
 
     lines = ["N"]
     obs = []
+    fileof = {}
     prev = {}          # file -> [(lib, key)] in textual order
     seen_libs = set()
     ok = True
@@ -171,13 +178,9 @@ def arena_script(trace):
                 ok = False          # two units with one description (homographs): outside the comparison
             ids[(li, ki)] = aid
             cur.setdefault(fname, []).append((li, ki))
+        # The model's unit set changes only for the re-parsed file(s): a unit of another file that becomes (in)visible
+        # (document_symbols lists only units whose entity exists) keeps its LockedUnit and hence its arena id.
         files = sorted(set(list(cur.keys()) + list(prev.keys()))) if st["edited"] is None else [st["edited"]]
-        # units of unedited files that appear or disappear (re-admitted duplicates, units without entity) break the
-        # simple replay: skip the case
-        if st["edited"] is not None:
-            for f in set(list(cur.keys()) + list(prev.keys())):
-                if f != st["edited"] and sorted(cur.get(f, [])) != sorted(prev.get(f, [])):
-                    ok = False
         for f in files:
             for (li, ki) in prev.get(f, []):
                 lines.append("R %d %d" % (li, ki))
@@ -187,10 +190,11 @@ def arena_script(trace):
                     seen_libs.add(li)
                     lines.append("L %d" % li)
                 lines.append("A %d %d" % (li, ki))
+            prev[f] = cur.get(f, [])
         lines.append("Q")
         obs.append(ids)
-        prev = cur
-    return lines, obs, ok
+        fileof[len(obs) - 1] = {k: f for f, ks in cur.items() for k in ks}
+    return lines, obs, ok, fileof
 
 
 def same_order(pairs):
@@ -213,17 +217,17 @@ def same_order(pairs):
 def arena_correspondence(res, mbin, arenas, d):
     scripts = []
     for a in arenas:
-        lines, obs, ok = arena_script(a["trace"])
+        lines, obs, ok, fileof = arena_script(a["trace"])
         if ok and obs:
-            scripts.append((a["id"], lines, obs))
+            scripts.append((a["id"], lines, obs, fileof))
     res.coverage["arena_traces"] = {"cases": len(arenas), "compared": len(scripts),
-                                    "skipped_homographs_or_readmitted_duplicates": len(arenas) - len(scripts)}
+                                    "skipped_homographs": len(arenas) - len(scripts)}
     if not scripts:
         return []
     inp = os.path.join(d, "arena.in")
     outp = os.path.join(d, "arena.model")
     with open(inp, "w") as f:
-        for _cid, lines, _obs in scripts:
+        for _cid, lines, _obs, _fo in scripts:
             f.write("\n".join(lines) + "\n")
     with open(inp) as fin, open(outp, "w") as fout:
         p = subprocess.run([mbin], stdin=fin, stdout=fout)
@@ -235,7 +239,7 @@ def arena_correspondence(res, mbin, arenas, d):
     nobs = 0
     nbad = 0
     coq_samples = []
-    for cid, lines, obs in scripts:
+    for cid, lines, obs, fileof in scripts:
         first_seen = {}      # (li,ki,model id) -> (step, file/lib group)
         pairs = []
         model_q = []
@@ -247,23 +251,18 @@ def arena_correspondence(res, mbin, arenas, d):
                 li, ki, mid = (int(x) for x in item.split(":"))
                 mm[(li, ki)] = mid
             model_q.append(mm)
-            if set(mm.keys()) != set(ids.keys()):
-                nbad += 1
-                if nbad <= 3:
-                    res.violation("correspondence broken: unit set of the model differs from the implementation's in case %s step %d" % (cid, q),
-                                  {"kind": "correspondence", "correspondence": "Kernel/Arena.v add_unit/remove_unit vs Library::add_design_unit",
-                                   "case_id": cid, "model": sorted(mm.items()), "impl": sorted(ids.items())}, no_failing_input=True)
-                break
             for key, mid in mm.items():
+                if key not in ids:
+                    continue        # the unit exists (LockedUnit) but has no entity in this state: not observable
                 nobs += 1
-                g = first_seen.setdefault((key, mid), (q, key[0]))
+                g = first_seen.setdefault((key, mid), (q, key[0], fileof.get(q, {}).get(key)))
                 pairs.append((mid, ids[key], g))
                 # std.standard always lives in arena 0 (Arena::new_std) — own_id std_unit = 0 in the model
                 if key == (0, 0) and (mid != 0 or ids[key] != 0):
                     nbad += 1
                     res.violation("correspondence broken: std.standard is expected in arena 0 (model %s, implementation %s)" % (mid, ids[key]),
                                   {"kind": "correspondence", "case_id": cid}, no_failing_input=True)
-        else:
+        if True:
             # distinct observations only
             uniq = sorted(set(pairs))
             why = same_order(uniq[:400])
@@ -427,7 +426,8 @@ def lsp_case(binpath, case, wsroot, libs_std, rng_seed, max_cursors, counters, s
         f.write("[libraries]\n")
         for lib, files in case["libs"]:
             f.write("%s.files = [%s]\n" % (lib, ", ".join("'%s'" % x for x in files)))
-    libs = lsp.VHDL_LIBRARIES if case["std"] == "full" else (libs_std if case["std"] == "std" else None)
+    # own / none: an empty library configuration (the project maps library std itself, or has none)
+    libs = lsp.VHDL_LIBRARIES if case["std"] == "full" else (libs_std if case["std"] == "std" else os.path.join(libs_std, "none"))
     env = dict(os.environ)
     env["RAYON_NUM_THREADS"] = "2"
     env["RUST_BACKTRACE"] = "0"
@@ -585,6 +585,11 @@ def lsp_case(binpath, case, wsroot, libs_std, rng_seed, max_cursors, counters, s
             queries(n, k + 1)
         ls.shutdown()
     except lsp.ServerDied as ex:
+        try:
+            ls.p.wait(timeout=5)
+        except Exception:
+            pass
+        time.sleep(0.3)          # let the stderr reader thread drain the pipe
         err = "".join(ls.stderr_buf)
         ls.kill()
         msg = str(ex)
@@ -617,6 +622,9 @@ def lsp_stage(res, fnd, cases, d, max_cursors):
     os.makedirs(libs_std, exist_ok=True)
     with open(os.path.join(libs_std, "vhdl_ls.toml"), "w") as f:
         f.write("[libraries]\nstd.files = ['%s/std/*.vhd']\nstd.is_third_party = true\n" % lsp.VHDL_LIBRARIES)
+    os.makedirs(os.path.join(libs_std, "none"), exist_ok=True)
+    with open(os.path.join(libs_std, "none", "vhdl_ls.toml"), "w") as f:
+        f.write("[libraries]\n")
     counters = {"requests": 0, "cursors": 0, "states": 0, "locations": 0, "diagnostics": 0, "completion_items": 0, "cases": 0}
     lock = threading.Lock()
     todo = list(enumerate(cases))
@@ -686,24 +694,24 @@ def main(tier, replay=None):
         if rp.get("via") == "lsp":
             lsp_cases = [case]
         else:
-            s, a, _ = run_harness(res, fnd, hbin, ["cases", path, os.path.join(d, "replay.out"), work, "1", "40"],
+            s, a, _ = run_harness(res, fnd, hbin, ["cases", path, os.path.join(d, "replay.out"), work, "1", "90"],
                                   os.path.join(d, "replay.out"), "replay", 600)
             summaries["replay"] = s
             arenas += a
     else:
         corpus = os.path.join(VERIF, "corpus", "C03.json")
         if os.path.exists(corpus):
-            s, a, _ = run_harness(res, fnd, hbin, ["cases", corpus, os.path.join(d, "corpus.out"), work, str(NTHREADS), "40"],
+            s, a, _ = run_harness(res, fnd, hbin, ["cases", corpus, os.path.join(d, "corpus.out"), work, str(NTHREADS), "90"],
                                   os.path.join(d, "corpus.out"), "corpus", 900)
             summaries["corpus"] = s
             arenas += a
         if tier == "thorough":
-            ncases, nsteps, nlsp, wd, tmo = 1500, 12, 40, 120, 3400
+            ncases, nsteps, nlsp, wd, tmo, budget = 1700, 12, 40, 300, 3400, 780
         else:
-            ncases, nsteps, nlsp, wd, tmo = 40, 9, 6, 60, 600
+            ncases, nsteps, nlsp, wd, tmo, budget = 40, 9, 6, 150, 900, 140
         lsp_path = os.path.join(d, "lsp_cases.json")
         s, a, _ = run_harness(res, fnd, hbin, ["gen", str(seed()), str(ncases), str(nsteps), os.path.join(d, "gen.out"), work,
-                                               str(NTHREADS), str(wd), lsp_path, str(ncases)],
+                                               str(NTHREADS), str(wd), lsp_path, str(min(ncases, 400)), str(budget)],
                               os.path.join(d, "gen.out"), "exploration", tmo)
         summaries["exploration"] = s
         arenas += a
@@ -712,7 +720,7 @@ def main(tier, replay=None):
             lsp_cases = [c for c in allc if c["std"] in ("full", "std")][:nlsp]
         # the open findings through the server as well: own library std is found through the project's own config
         for c in json.load(open(corpus)) if os.path.exists(corpus) else []:
-            if c["id"] in ("F26-typed-into-standard", "F27-std_logic_1164-is-entity", "F5-lexer-hang", "F4-deadlock", "F3-stale-lint"):
+            if c["id"] in ("F28-typed-into-standard", "F27-std_logic_1164-is-entity", "F5-lexer-hang", "F4-deadlock", "F3-stale-lint"):
                 lsp_cases.append(c)
 
     samples = arena_correspondence(res, mbin, arenas, d)
@@ -737,7 +745,7 @@ def main(tier, replay=None):
     # non-trivial = states whose analysis reports at least one error diagnostic (broken code) — counted by the harness
     res.coverage["distinct_nontrivial"] = tot["states_with_error_diagnostics"]
     res.coverage["evaluations"] = res.evaluations
-    res.add_sample({"note": "see .cache/run/C03/gen.out (JSON lines: case / arena / violation / summary records)"})
+    res.add_sample({"note": "all records: .cache/run/C03/gen.out, corpus.out (JSON lines: case / arena / violation / summary)"}, limit=6)
     res.coverage["exhaustive"] = False
     res.coverage["partial"] = True
     res.coverage["explanation"] = (
